@@ -217,6 +217,8 @@ structure Field where
 
 /-- setting values (`other` = objects the model does not look into: distributions, dicts, lists) -/
 inductive Val | none | b (x : Bool) | i (x : Int) | q (x : Rat) | s (x : String) | other (tag : String)
+  | np (x : Rat)   -- a numpy scalar that is neither a Python `int` nor a Python `float` (np.int64, np.float32, np.bool_): `float()` and
+                   -- `int()` convert it, `isinstance(_, int | float | bool)` is false (np.float64 *is* a `float` and is encoded as `q`)
   deriving DecidableEq, Repr
 
 /-- a validator's verdict: `none` = passes, `some cls` = the exception class attrs raises -/
@@ -243,16 +245,20 @@ def checkVal : Validator → Val → Option String
   | .gt0, .i x => if x > 0 then none else some "ValueError"
   | .gt0, .b x => if x then none else some "ValueError"
   | .gt0, .q x => if x > 0 then none else some "ValueError"
+  | .gt0, .np x => if x > 0 then none else some "ValueError"
   | .gt0, _ => some "TypeError"
   | .oneOf l, .s x => if memS x l then none else some "ValueError"
   | .oneOf _, _ => some "ValueError"
   | .custom, _ => none                          -- not modelled (reasonable_physical_range)
 
 /-- attrs converters run before the validators -/
+def truncQ (x : Rat) : Int := if x < 0 then -((-x).floor) else x.floor
+
 def convertVal (conv : String) (v : Val) : Except String Val :=
   if streq conv "float" then
     match v with
     | .q x => .ok (.q x)
+    | .np x => .ok (.q x)
     | .i x => .ok (.q x)
     | .b x => .ok (.q (if x then 1 else 0))
     | .s _ => .error "ValueError"
@@ -261,7 +267,8 @@ def convertVal (conv : String) (v : Val) : Except String Val :=
     match v with
     | .i x => .ok (.i x)
     | .b x => .ok (.i (if x then 1 else 0))
-    | .q x => .ok (.i (if x < 0 then -((-x).floor) else x.floor))
+    | .q x => .ok (.i (truncQ x))
+    | .np x => .ok (.i (truncQ x))
     | .s _ => .error "ValueError"
     | _ => .error "TypeError"
   else .ok v
@@ -498,6 +505,22 @@ def construct (rs : List Rule) (base : List (String × Val)) : Except String Ins
 
 /-- `inst.k = v` (attribute assignment of a field; validators as at construction are applied by the caller) -/
 def assign (i : Inst) (k : String) (v : Val) : Inst := { i with fields := setKV i.fields k v }
+
+/-- `inst.k = x` as attrs performs it (`on_setattr` of `attrs.define` defaults to convert + validate): the field's converter
+    and validators run exactly as in `__init__`; an attribute that is not a field is just set (not modelled here) -/
+def assignChecked (d : Deb) (i : Inst) (k : String) (x : Val) : Except String Inst :=
+  match fieldOf d k with
+  | none => .error "not-a-field"
+  | some f => match checkField f x with
+      | .error e => .error e
+      | .ok y => .ok (assign i k y)
+
+/-- options of the `@attrs.define(...)` decorator of every class in the debiaser hierarchy (no `on_setattr` override anywhere) -/
+def defineOptions : List (String × List String) := [
+  ("Debiaser", ["slots=False", "kw_only=True"]), ("RunningWindowDebiaser", ["slots=False", "kw_only=True"]),
+  ("LinearScaling", ["slots=False"]), ("DeltaChange", ["slots=False"]), ("QuantileMapping", ["slots=False"]),
+  ("ScaledDistributionMapping", ["slots=False"]), ("CDFt", ["slots=False"]), ("ECDFM", ["slots=False"]),
+  ("QuantileDeltaMapping", ["slots=False"]), ("ISIMIP", ["slots=False"])]
 
 /-- the derived attributes the run reads: for every `build` rule whose flag is on, the attribute must exist -/
 def activeExtra : List Rule → Inst → Except String (List (String × Built))
